@@ -624,6 +624,10 @@ class Interp:
 
     def _any_match_shape(self, st: ast.For) -> Optional[ast.If]:
         body = [s for s in st.body if not self._is_logging(s)]
+        # leading single-target assignments (`m = p.search(x)`) are folded into the test
+        while len(body) > 1 and isinstance(body[0], ast.Assign) and len(body[0].targets) == 1 \
+                and isinstance(body[0].targets[0], ast.Name):
+            body = body[1:]
         if len(body) != 1 or not isinstance(body[0], ast.If):
             return None
         iff = body[0]
@@ -650,6 +654,16 @@ class Interp:
         loopvars = self._names_in(st.target)
         it_text = self.text(st.iter)
         self.ev(st.iter)
+        saved_env = dict(self.env)
+        for n in loopvars:
+            self.env.pop(n, None)
+        for pre in st.body:
+            if pre is iff:
+                break
+            if isinstance(pre, ast.Assign):
+                # symbolic binding only (no events): the value is part of the test text
+                self.env[pre.targets[0].id] = Sym(self.text(pre.value))  # type: ignore[attr-defined]
+                loopvars = loopvars | {pre.targets[0].id}  # type: ignore[attr-defined]
         test = iff.test
         conj = test.values if isinstance(test, ast.BoolOp) and isinstance(test.op, ast.And) else [test]
         variant = [c for c in conj if self._names_in(c) & loopvars]
